@@ -143,18 +143,22 @@ class GeckoAsyncLocator(Observable):
         self._started = time.monotonic()
         self._on_change(self)
 
-        while self.age < GeckoConfig.DISCOVERY_TIMEOUT_IN_SECONDS:
-            if self.has_had_enough_time:
-                if len(self._spas) > 0:
-                    _LOGGER.info("Found %d spas ... %s", len(self._spas), self._spas)
+        try:
+            while self.age < GeckoConfig.DISCOVERY_TIMEOUT_IN_SECONDS:
+                if self.has_had_enough_time:
+                    if len(self._spas) > 0:
+                        _LOGGER.info(
+                            "Found %d spas ... %s", len(self._spas), self._spas
+                        )
+                        break
+                if self._has_found_spa:
                     break
-            if self._has_found_spa:
-                break
-            await asyncio.sleep(GeckoConstants.ASYNCIO_SLEEP_TIMEOUT_FOR_YIELD)
+                await asyncio.sleep(GeckoConstants.ASYNCIO_SLEEP_TIMEOUT_FOR_YIELD)
 
-        _LOGGER.debug("Discovery complete, close transport")
-        self._task_man.cancel_key_tasks("LOC")
-        self._transport.close()
-        self._transport = None
-        self._protocol = None
+        finally:
+            _LOGGER.debug("Discovery complete, close transport")
+            self._task_man.cancel_key_tasks("LOC")
+            self._transport.close()
+            self._transport = None
+            self._protocol = None
         self._on_change(self)
